@@ -170,7 +170,7 @@ contract(IRFS + "._annotate_target_object", params={"a_triple": Triple}, self_ty
              "same_except(%s, %s, %s)" % (G_NEW, G_OLD, PK),
              "%s[%s][0] == old(%s[%s][0])" % (ID2, OKEY2, ID2, OKEY2),           # classes of the object untouched
              "%s[%s][1] == old(%s[%s][1])" % (ID2, OKEY2, ID2, OKEY2),           # its OUTGOING features untouched (C14: direct part unchanged)
-             "same_except(%s, old(%s), %s)" % (ID2, ID2, OKEY2)],
+             "same_except(%s, old(%s), %s)" % (ID2, ID2, OKEY2), "%s in %s" % (OKEY2, ID2)],
     raises=[], modifies=["IBox2.val[self._i_dict]"],
     loops={0: {"invariant": [
         "%s in %s" % (OKEY2, ID2), "str_prop in %s" % G_NEW, "type_subj in %s[str_prop]" % G_NEW,
